@@ -4,6 +4,7 @@
 #   tools/baseline.sh fast [outdir]  - one pytest process per test file, 14 in parallel (~10 min)
 #   tools/baseline.sh full [outdir]  - the exact BASELINE.json command, serial (13-45 min)
 unset PANDERA_VERIF
+export PYSPARK_PYTHON=/venv/bin/python PYSPARK_DRIVER_PYTHON=/venv/bin/python
 MODE="${1:-fast}"
 OUT="${2:-/tmp/pandera-baseline}"
 rm -rf "$OUT"; mkdir -p "$OUT"
@@ -26,7 +27,8 @@ stable = set(base["stable_pass"])
 passed = set()
 for f in glob.glob(sys.argv[1] + "/*.xml"):
     for tc in ET.parse(f).getroot().iter("testcase"):
-        if not any(ch.tag in ("failure", "error", "skipped") for ch in tc):
+        bad = [ch for ch in tc if ch.tag in ("failure", "error") or (ch.tag == "skipped" and ch.get("type") != "pytest.xfail")]
+        if not bad:
             passed.add(f"{tc.get('classname')}::{tc.get('name')}")
 missing = sorted(stable - passed)
 print(f"stable_pass={len(stable)} passed_now={len(passed)} missing={len(missing)}")
